@@ -426,7 +426,7 @@ func checkC36(c *Ctx, r *Report) {
 				}
 				// sorted before
 				sorted := false
-				for _, sc := range findCalls(w.Fn, "sort.Slice") {
+				for _, sc := range findCalls(w.Fn, "sort.Slice", "sort.SliceStable", "slices.SortFunc", "slices.SortStableFunc", "sort.Sort", "sort.Stable") {
 					if _, isCall := sc.(*ssa.Call); isCall && instrDominates(sc.(ssa.Instruction), w.In) {
 						sorted = true // a deferred sort runs after the loop and does not count
 					}
